@@ -120,6 +120,8 @@ PROPS = {
              "oracle_prefix": ["o_c01", "o_rt", "o_c05"]},
             {"name": "o_c01", "module": "pa", "quick": 4000, "thorough": 60000, "kind": "oracle", "profiles": ["debug", "release"],
              "args": {"kind": "chunk"}},
+            {"name": "o_new", "module": "pa", "quick": 1500, "thorough": 20000, "kind": "oracle", "profiles": ["debug"],
+             "args": {"kind": "new"}},
         ],
         "rule": "grammar-generated and mutated documents for all seven parsers x literal types x ignore_header / "
                 "ignore_unknown_lines x schedules (one-shot, one byte per read, random sizes, Interrupted-interleaved) x chunk sizes "
@@ -167,6 +169,7 @@ PROPS = {
             {"name": "o_c04", "module": "pa", "quick": 4000, "thorough": 60000, "kind": "oracle", "profiles": ["debug", "release"],
              "args": {"kind": "fault"}},
             {"name": "pa", "module": "pam", "quick": 2000, "thorough": 30000, "profiles": ["debug"], "oracle_prefix": ["o_c01", "o_rt", "o_c05"]},
+            {"name": "o_skip", "module": "pa", "quick": 2000, "thorough": 30000, "kind": "oracle", "profiles": ["debug"], "args": {"kind": "skip"}},
             {"name": "pa_fixed", "module": "fixed", "quick": 0, "thorough": 0, "kind": "oracle", "profiles": ["debug", "release"]},
         ],
         "rule": "documents for all seven parsers x source schedules, the source failing after k bytes (k = 0, end-1, end, line "
@@ -203,6 +206,8 @@ PROPS = {
             {"name": "pa", "module": "pam", "quick": 2000, "thorough": 30000, "profiles": ["debug", "release"], "oracle_prefix": ["o_c05", "o_c01", "o_rt"]},
             {"name": "o_skip", "module": "pa", "quick": 1500, "thorough": 20000, "kind": "oracle", "profiles": ["debug"],
              "args": {"kind": "skip"}},
+            {"name": "limits", "module": "pa", "quick": 400, "thorough": 400, "kind": "oracle", "profiles": ["debug", "release"],
+             "args": {"kind": "limits"}},
             {"name": "rn", "module": "rn", "quick": 1000, "thorough": 20000, "profiles": ["debug"], "oracle_prefix": "o_rn"},
             {"name": "pa_fixed", "module": "fixed", "quick": 0, "thorough": 0, "kind": "oracle", "profiles": ["debug", "release"]},
         ],
@@ -254,6 +259,9 @@ PROPS = {
              "args": {"kind": "corrupt"}},
             {"name": "limits", "module": "pa", "quick": 300, "thorough": 300, "kind": "oracle", "profiles": ["debug"],
              "args": {"kind": "limits"}},
+            {"name": "o_new", "module": "pa", "quick": 2000, "thorough": 30000, "kind": "oracle", "profiles": ["debug", "release"],
+             "args": {"kind": "new"}},
+            {"name": "o_skip", "module": "pa", "quick": 1500, "thorough": 20000, "kind": "oracle", "profiles": ["debug"], "args": {"kind": "skip"}},
             {"name": "o_c05", "module": "pa", "quick": 2000, "thorough": 30000, "kind": "oracle", "profiles": ["debug"],
              "args": {"kind": "safe"}},
             {"name": "pa", "module": "pam", "quick": 2500, "thorough": 40000, "profiles": ["debug"], "oracle_prefix": ["o_c05", "o_c01", "o_rt"]},
